@@ -106,10 +106,53 @@ def gen_packing(rnd, idn):
                 shards=shards, active=[1, 2, 3, 4], explore=[], failScale=0)
 
 
+def gen_bigneighbour(rnd, idn, maxN, maxK):
+    """Directed family: the plainest world (every shard answering and in sync, every target held once, normal, healthy),
+    one shard over a limit that holds a target which alone exceeds a limit next to movable ones, another shard with room
+    for one of them.  Whether the cycle relieves the shard may not depend on the order its targets are visited in."""
+    dim = rnd.choice(['proc', 'proc', 'head'])
+    maxHead = 10 if dim == 'head' else rnd.choice([0, 10, 40])
+    maxProc = rnd.choice([20, 30]) if dim == 'proc' else 60
+    n = rnd.choice([2, 3]) if maxN >= 3 else 2
+    k = min(maxK, rnd.choice([3, 4, 5]))
+    s = rnd.randrange(n)
+    nbig = 1 if k == 3 or rnd.random() < 0.7 else 2
+    rep = [[] for _ in range(n)]
+    for t in range(1, k + 1):
+        if t <= nbig:
+            if dim == 'proc':
+                series = rnd.choice([1, 2, 3]); total = maxProc + rnd.choice([1, 2, 9])
+            else:
+                series = maxHead + rnd.choice([1, 2, 5]); total = series + rnd.choice([0, 3])
+            times = rnd.choice([1, 3, 7])
+        else:
+            if dim == 'proc':
+                total = rnd.choice([maxProc // 2, maxProc // 2 + 1, maxProc - 3, 7]); series = min(total, rnd.choice([1, 2, 3]))
+            else:
+                series = rnd.choice([4, 5, 6, 8]); total = series + rnd.choice([0, 2])
+            times = rnd.choice([3, 3, 4, 7, 2])
+        where = s if (t <= k - 1 or rnd.random() < 0.5) else rnd.choice([j for j in range(n) if j != s])
+        rep[where].append(dict(t=t, state='', health='up', times=times, series=series, total=total))
+    shards = []
+    for j in range(n):
+        sseries = sum(e['series'] for e in rep[j]); stotal = sum(e['total'] for e in rep[j])
+        head = sseries + (rnd.choice([0, 1, 2]) if j == s else rnd.choice([0, 0, 1, 3]))
+        shards.append(dict(mode='ok', report=rep[j], head=head, proc=stotal, idle='none' if rep[j] else rnd.choice(['fresh', 'expired', 'none']),
+                           postFail=False))
+    explore = [dict(t=e['t'], state='', health='up', times=0, series=e['series'], total=e['total']) for r in rep for e in r if rnd.random() < 0.7]
+    return dict(id=idn, fam='bigneighbour', opts=dict(maxHead=maxHead, maxProc=maxProc, minShard=rnd.choice([0, 1]), maxShard=rnd.choice([n, n + 1, 9]),
+                                                       maxIdle=rnd.choice([0, 1]), noAlleviate=False),
+                shards=shards, active=list(range(1, k + 1)), explore=explore, failScale=0)
+
+
 def gen_input(rnd, idn, maxN=3, maxK=3):
     """One cycle input.  A family biases the draw towards one mechanism (the plain family is the
     unbiased mixture); every family still randomises everything else."""
-    fam = rnd.choice(['plain', 'plain', 'scaledown', 'scaledown', 'relief', 'oversized', 'handover', 'unsynced', 'fullrelief'])
+    fam = rnd.choice(['plain', 'plain', 'scaledown', 'scaledown', 'relief', 'oversized', 'handover', 'unsynced', 'fullrelief', 'bigneighbour'])
+    if fam == 'bigneighbour':
+        if maxN >= 2 and maxK >= 3:
+            return gen_bigneighbour(rnd, idn, maxN, maxK)
+        fam = 'oversized'
     if fam == 'fullrelief' and maxN >= 3 and maxK >= 3:
         x = rnd.random()
         return gen_fullrelief(rnd, idn) if x < 0.5 else gen_procfull(rnd, idn) if x < 0.85 else gen_packing(rnd, idn)
